@@ -95,11 +95,12 @@ def tabu_search[T, M](
 
         solution, obj = best_neighbor, best_neighbor_obj
 
-        if len(tabu_list) == cooldown:
-            tabu_set.discard(tabu_list[0])
+        if cooldown > 0:  # cooldown 0 means no memory at all
+            if len(tabu_list) == cooldown:
+                tabu_set.discard(tabu_list[0])
 
-        tabu_list.append(best_move)
-        tabu_set.add(best_move)
+            tabu_list.append(best_move)
+            tabu_set.add(best_move)
 
         if obj < best_obj:
             best_solution, best_obj, best_iter = solution, obj, iteration
